@@ -174,8 +174,11 @@ class Eq:
 class Block:
     """Fenced verbatim block whose lines are the generated-code spelling of `eqs`."""
 
-    def __init__(self, eqs):
+    def __init__(self, eqs, guard=0):
         self.eqs = list(eqs)
+        # guard > 0: the lines sit, indented, under an always-true `if` (with trailing comments on some of them): verbatim code
+        # keeps its indentation and its comments are Python's own
+        self.guard = guard
 
 
 class Program:
@@ -196,7 +199,7 @@ def to_json(x):
     if isinstance(x, Eq):
         return {'_': 'Eq', 'lhs': to_json(x.lhs), 'rhs': to_json(x.rhs)}
     if isinstance(x, Block):
-        return {'_': 'Block', 'eqs': [to_json(e) for e in x.eqs]}
+        return {'_': 'Block', 'eqs': [to_json(e) for e in x.eqs], 'guard': getattr(x, 'guard', 0)}
     if isinstance(x, Program):
         return {'_': 'Program', 'stmts': [to_json(e) for e in x.stmts]}
     if isinstance(x, (list, tuple)):
@@ -214,7 +217,7 @@ def from_json(j):
     if kind == 'Eq':
         return Eq(args['lhs'], args['rhs'])
     if kind == 'Block':
-        return Block(args['eqs'])
+        return Block(args['eqs'], args.get('guard', 0))
     if kind == 'Program':
         return Program(args['stmts'])
     cls = globals()[kind]
@@ -402,6 +405,13 @@ def render_block(block, mode):
     if mode == 'ref':
         return '\n'.join(render_eq(e, 'ref') for e in block.eqs)
     body = '\n'.join(render_eq(e, 'code') for e in block.eqs)
+    g = getattr(block, 'guard', 0)
+    if g:
+        lines = body.split('\n')
+        tails = ['  # note', '', ' # x = 1', '\t# last']
+        body = ('if True:  # always\n' if g % 2 else 'if 1 > 0:\n') + '\n'.join('    ' + ln + tails[(g + i) % len(tails)] for i, ln in enumerate(lines))
+        if g % 3 == 0:
+            body += '\nelse:\n    pass  # never'
     if mode == 'code':
         return body
     return '```\n' + body + '\n```'
@@ -594,10 +604,11 @@ class RandomPrograms:
                 if self.kind_of.get(other, 'var') == 'var' and other not in self.used_funcs and bname not in self.used_funcs:
                     self.kind_of.setdefault(other, 'var')
                     # deliberately not idempotent, so that a block that is dropped, merged or run twice is observable
-                    blk = Block([Eq(Var(bname, 'var', 0), Bin('+', Bin('*', Var(bname, 'var', 0), Num('0.5')), Var(other, 'var', 0)))])
+                    blk = Block([Eq(Var(bname, 'var', 0), Bin('+', Bin('*', Var(bname, 'var', 0), Num('0.5')), Var(other, 'var', 0)))],
+                                guard=rng.choice([0, 0, 1, 2, 3, 4]))
                     stmts.append(blk)
                     if rng.random() < 0.3:
-                        stmts.append(Block(list(blk.eqs)))   # the same verbatim block written twice
+                        stmts.append(Block(list(blk.eqs), blk.guard))   # the same verbatim block written twice
         eq_names = {tm.name for st in stmts if isinstance(st, Eq) for tm in st.terms()}
         stmts = [st for st in stmts if isinstance(st, Eq) or all(tm.name in eq_names for e in st.eqs for tm in e.terms())]
         prog = Program(stmts)
